@@ -368,7 +368,7 @@ def run(chk):
     # ---------------- R5 lazy reconnect ---------------------------------------------------------
     r5 = chk.rule("C06.R5", "every sendall is preceded on all paths by the guard `self.sock is None => _connect()`")
     exch = exchange_functions(prog)
-    r5.floor("exchange functions (contain a sendall)", len(exch), 3)
+    r5.floor("functions that contain a sendall", len(exch), 1)
     for f in exch:
         for old in (False, True):
             dom = SockDomain(prog, f, connect_summary=("ok", "exc"))
